@@ -133,46 +133,40 @@ var atoms = []val.V{
 	val.Y("+"), val.Y("="), val.Y("list"), val.Y("first"), val.Y("trace!"),
 }
 
-var memo = map[int][]val.V{}
-
-// exprs returns every expression with exactly n nodes (an atom or a list counts 1 + children).
-func exprs(n int) []val.V {
+// each calls f for every expression with exactly n nodes (an atom or a list counts 1 + its
+// children), without materialising the whole set (there are 3.3 million of size 6).
+func each(n int, f func(val.V) bool) bool {
 	if n <= 0 {
-		return nil
+		return true
 	}
-	if v, ok := memo[n]; ok {
-		return v
-	}
-	out := []val.V{}
 	if n == 1 {
-		out = append(out, atoms...)
-	}
-	// lists: children sizes sum to n-1
-	var seqs func(rem int) [][]val.V
-	seqMemo := map[int][][]val.V{}
-	seqs = func(rem int) [][]val.V {
-		if rem == 0 {
-			return [][]val.V{{}}
-		}
-		if v, ok := seqMemo[rem]; ok {
-			return v
-		}
-		res := [][]val.V{}
-		for first := 1; first <= rem; first++ {
-			for _, h := range exprs(first) {
-				for _, tail := range seqs(rem - first) {
-					res = append(res, append([]val.V{h}, tail...))
-				}
+		for _, a := range atoms {
+			if !f(a) {
+				return false
 			}
 		}
-		seqMemo[rem] = res
-		return res
 	}
-	for _, s := range seqs(n - 1) {
-		out = append(out, val.V{K: val.List, L: s})
+	return eachSeq(n-1, func(seq []val.V) bool {
+		return f(val.V{K: val.List, L: append([]val.V{}, seq...)})
+	})
+}
+
+// eachSeq calls f for every sequence of expressions whose sizes sum to rem.
+func eachSeq(rem int, f func([]val.V) bool) bool {
+	if rem == 0 {
+		return f(nil)
 	}
-	memo[n] = out
-	return out
+	for first := 1; first <= rem; first++ {
+		ok := each(first, func(h val.V) bool {
+			return eachSeq(rem-first, func(tail []val.V) bool {
+				return f(append([]val.V{h}, tail...))
+			})
+		})
+		if !ok {
+			return false
+		}
+	}
+	return true
 }
 
 func TestEnum(t *testing.T) {
@@ -185,16 +179,18 @@ func TestEnum(t *testing.T) {
 	if shards <= 0 {
 		shards = 1
 	}
-	total := 0
+	total, i := 0, 0
 	for n := 1; n <= maxN; n++ {
-		for i, e := range exprs(n) {
+		ok := each(n, func(e val.V) bool {
+			i++
 			if i%shards != shard {
-				continue
+				return true
 			}
 			total++
-			if !pbt.RunOne(t, P, Case{Forms: []val.V{e}, Fuel: 3000}) {
-				return
-			}
+			return pbt.RunOne(t, P, Case{Forms: []val.V{e}, Fuel: 3000})
+		})
+		if !ok {
+			return
 		}
 	}
 	pbt.Exhaustive("all programs with <= "+strconv.Itoa(maxN)+" nodes over {a b f 0 1 nil def let if do fn quote + = list first trace!}", total)
